@@ -398,7 +398,8 @@ pub enum OnchainEvent { HTLCUpdate { x: u8 }, MaturingOutput { x: u8 }, FundingS
 pub struct OnchainEventEntry { pub event: OnchainEvent, pub height: u32 }
 pub struct Broadcaster {} pub struct Estimator {} pub struct Logger {}
 // `queued`: ghost record of the call that hands our latest commitment to the claim handler (it marks it as signed: holder_tx_signed)
-pub struct ChannelMonitorImpl { pub lockdown_from_offchain: bool, pub holder_tx_signed: bool, pub funding_spend_confirmed: Option<Txid>,
+// funding_spend_seen (a spend was seen once, never cleared by a reorg) and funding_seen_onchain are in the skeleton so that a test written over them is verified rather than refused
+pub struct ChannelMonitorImpl { pub lockdown_from_offchain: bool, pub holder_tx_signed: bool, pub funding_spend_confirmed: Option<Txid>, pub funding_spend_seen: bool, pub funding_seen_onchain: bool,
     pub onchain_events_awaiting_threshold_conf: Vec<OnchainEventEntry>, pub queued: Ghost<Seq<bool>> }
 pub open spec fn spend_of_the_funding_output_seen_confirmed(m: ChannelMonitorImpl) -> bool {
     m.funding_spend_confirmed is Some || exists|k: int| 0 <= k < m.onchain_events_awaiting_threshold_conf@.len() && (#[trigger] m.onchain_events_awaiting_threshold_conf@[k]).event is FundingSpendConfirmation
